@@ -92,5 +92,47 @@ def run(chk):
             op_ = type(n.ops[0]).__name__
             chk.ob("R-CAVDP", c + "[gate-edge: %s]" % " ".join(ast.unparse(n).split()), "the gate is inclusive: peak - gate < 0 contributes nothing, >= 0 contributes",
                    op_ in ("Lt", "GtE"), derived="peak - gate %s 0" % op_, loc=e.loc, stmt=e.stmt)
+    cavdp_windows(chk, r.fi, c)
     chk.floor("R-IM-TYPE", 70)
     chk.floor("R-CAVDP", 8)
+
+
+def cavdp_windows(chk, fi, c):
+    """The one-second windows of the standardised CAV, read off the syntax where the pinned bookkeeping is recognisable (a running `start`
+    sample index advanced by the samples per second): the first window starts at sample 0, the number of windows is int(time[-1]) (the
+    LAST time), and a window takes its samples start .. start + samples-per-second inclusive.  Nothing is said where another
+    bookkeeping is used."""
+    from ..poly import Normaliser, Poly, straightline_env
+    outer = [n for n in fi.node.body if isinstance(n, ast.For)]
+    for lp in outer[:1]:
+        ends = [st for st in lp.body if isinstance(st, ast.Assign) and len(st.targets) == 1 and isinstance(st.targets[0], ast.Name) and
+                isinstance(st.value, ast.BinOp) and isinstance(st.value.op, ast.Add) and isinstance(st.value.left, ast.Name)]
+        if not ends:
+            continue
+        start_name, end_name = ends[0].value.left.id, ends[0].targets[0].id
+        inits = [st for st in fi.node.body if isinstance(st, ast.Assign) and len(st.targets) == 1 and isinstance(st.targets[0], ast.Name) and
+                 st.targets[0].id == start_name and st.lineno < lp.lineno]
+        if len(inits) == 1:
+            chk.ob("R-CAVDP", c + "{first window}", "the first window starts at sample 0", isinstance(inits[0].value, ast.Constant) and
+                   inits[0].value.value == 0 and not isinstance(inits[0].value.value, bool), derived=" ".join(ast.unparse(inits[0]).split()),
+                   loc=fi.loc(inits[0]), stmt=" ".join(ast.unparse(inits[0]).split()))
+        env = straightline_env(lp.body, Normaliser(), exclude={start_name})
+        span = None
+        where = None
+        for n in ast.walk(lp):
+            if isinstance(n, ast.For) and n is not lp and isinstance(n.iter, ast.Call) and ast.unparse(n.iter.func) == "range" and len(n.iter.args) == 2:
+                span, where = env.poly(n.iter.args[1]) - env.poly(n.iter.args[0]), n
+            elif isinstance(n, ast.Subscript) and isinstance(n.slice, ast.Slice) and n.slice.lower is not None and n.slice.upper is not None and \
+                    isinstance(n.slice.lower, ast.Name) and n.slice.lower.id == start_name and span is None:
+                span, where = env.poly(n.slice.upper) - env.poly(n.slice.lower), n
+        if span is not None:
+            pps = env.poly(ends[0].value.right)
+            chk.ob("R-CAVDP", c + "{window samples}", "a window takes samples start .. start + samples-per-second, both ends included", span == pps + Poly.const(1),
+                   derived="%s samples" % span.canon(), loc=fi.loc(where), stmt=" ".join(ast.unparse(where.iter if isinstance(where, ast.For) else where).split()))
+    for n in ast.walk(fi.node):
+        if isinstance(n, ast.Assign) and isinstance(n.value, ast.Call) and ast.unparse(n.value.func) == "int" and n.value.args and \
+                isinstance(n.value.args[0], ast.Subscript) and ast.unparse(n.value.args[0].value).endswith(".time") and \
+                isinstance(n.value.args[0].slice, (ast.Constant, ast.UnaryOp)):
+            k = ast.unparse(n.value.args[0].slice)
+            chk.ob("R-CAVDP", c + "{number of windows}", "the number of one-second windows is int(time[-1]), the record's last time", k == "-1",
+                   derived="int(time[%s])" % k, loc=fi.loc(n), stmt=" ".join(ast.unparse(n).split()))
